@@ -180,6 +180,20 @@ PROPS = {
         not_decided=["G2/G3 (sample counts, one fresh sample per job) are bounded only", "statistical adequacy of the estimate"],
         trusted=S_COMMON + T_SOLVER + ["model: np.mean(list) = ghost prefix sum / length"],
     ),
+    "C20": dict(
+        functions=[CT + "GammaResults.gamma", CT + "GammaResults.n_samples", CT + "GammaResults.expected_disorder", CT + "GammaResults.observed_disorder",
+                   AL + "Alignment.disorder"],
+        wiring=True,
+        oracles=["pygamma_agreement/cli_apps.py::pygamma_cmd"],
+        bounded=[dict(oracle="pygamma_agreement/cli_apps.py::pygamma_cmd",
+                      what="numerical equality of what is printed / written with the API values: pygamma_cmd run in-process on generated csv files "
+                           "(all three output modes, every -d choice, -m, -c, -k, -s, -a -b -e -p -n --seed) against the API call with the same options")],
+        design_ref="DESIGN.md section 4 C20 (L1-L4)",
+        not_decided=["console formatting beyond the printed number", "rttm input path (wired, not exercised)",
+                     "L4 (JSON leaves are python floats): bounded only (the writer models were not built)"],
+        trusted=["the option table is read mechanically from the add_argument calls of cli_apps.py; argparse delivers args.<dest> of the declared type",
+                 "wiring obligations are syntactic data-flow facts of pygamma_cmd's AST (no SMT); equality with the API values is bounded"],
+    ),
     "C06": dict(
         functions=[],
         effects="C06", effects_oracle=CT + "Continuum.compute_gamma#schedules",
